@@ -243,51 +243,51 @@ Section WithFacts.
     destruct (has_currency default_base_currency t) eqn:H2; [intros [= <-]; exact H2|discriminate].
   Qed.
 
-  Lemma registry_for_ok t configured :
-    rates_positive t -> exists r, registry_for t configured = POk r.
+  Lemma registry_for_ok nn t configured :
+    rates_positive t -> exists r, registry_for nn t configured = POk r.
   Proof.
     intros Hp. unfold registry_for. destruct (select_base configured t) as [b|] eqn:S; [|eauto].
-    destruct (registration_never_raises pre_names pre_syms t b Hp (select_base_has _ _ _ S))
+    destruct (registration_never_raises nn pre_names pre_syms t b Hp (select_base_has _ _ _ S))
       as (st & bb & _ & _ & R & _).
     rewrite R. cbn [pbind]. eauto.
   Qed.
 
   (* ---------------------------------------------------------------- start-up *)
-  Theorem startup_starts pf fs : exists s, startup pf fs = Started s.
+  Theorem startup_starts pf nn fs : exists s, startup pf nn fs = Started s.
   Proof.
     unfold startup.
     destruct (read_config_ok (fs PConfig) []) as (c1 & w1 & R1 & _). rewrite R1.
     destruct (load_currency_data pf c1 fs) as [[[t b] w2]|e] eqn:L.
     2:{ destruct (load_currency_cases pf c1 fs) as [(w' & L')|(? & ? & ? & _ & _ & L')]; congruence. }
     destruct (load_currency_positive pf c1 fs t b w2 L) as [Hp _].
-    destruct (registry_for_ok t (cfg_str c1 "base-currency") Hp) as (r & Rg). rewrite Rg.
+    destruct (registry_for_ok nn t (cfg_str c1 "base-currency") Hp) as (r & Rg). rewrite Rg.
     destruct (read_config_ok (fs PConfig) c1) as (c2 & w3 & R2 & _). rewrite R2.
     eauto.
   Qed.
 
   (* what the started state is made of *)
-  Lemma startup_inv pf fs s : startup pf fs = Started s ->
+  Lemma startup_inv pf nn fs s : startup pf nn fs = Started s ->
     exists c1 w1 w3,
       read_config (fs PConfig) [] = POk (c1, w1)
       /\ read_config (fs PConfig) c1 = POk (st_cfg s, w3)
       /\ load_currency_data pf c1 fs = POk (st_table s, st_from_file s, st_printed s)
-      /\ registry_for (st_table s) (cfg_str c1 "base-currency") = POk (st_reg s).
+      /\ registry_for nn (st_table s) (cfg_str c1 "base-currency") = POk (st_reg s).
   Proof.
     unfold startup.
     destruct (read_config (fs PConfig) []) as [[c1 w1]|] eqn:R1; [|discriminate].
     destruct (load_currency_data pf c1 fs) as [[[t b] w2]|] eqn:L; [|discriminate].
-    destruct (registry_for t (cfg_str c1 "base-currency")) as [r|] eqn:G; [|discriminate].
+    destruct (registry_for nn t (cfg_str c1 "base-currency")) as [r|] eqn:G; [|discriminate].
     destruct (read_config (fs PConfig) c1) as [[c2 w3]|] eqn:R2; [|discriminate].
     intros [= <-]. cbn [st_cfg st_table st_from_file st_printed st_reg]. exists c1, w1, w3.
     rewrite R2, L, G. repeat split; reflexivity.
   Qed.
 
   (* reading the file twice (ka.config.get at import, then main) gives what one reading gives *)
-  Lemma startup_cfg_lookup pf fs s text k :
-    fs PConfig = Bytes true text -> startup pf fs = Started s ->
+  Lemma startup_cfg_lookup pf nn fs s text k :
+    fs PConfig = Bytes true text -> startup pf nn fs = Started s ->
     assoc k (st_cfg s) = last_effect k (readlines (universal_newlines text)).
   Proof.
-    intros F S. destruct (startup_inv pf fs s S) as (c1 & w1 & w3 & R1 & R2 & _).
+    intros F S. destruct (startup_inv pf nn fs s S) as (c1 & w1 & w3 & R1 & R2 & _).
     rewrite F in R1, R2.
     destruct (read_config_ok (Bytes true text) []) as (a1 & b1 & Q1 & M1). rewrite R1 in Q1.
     injection Q1 as <- <-.
@@ -300,16 +300,16 @@ Section WithFacts.
     rewrite A2, A1. destruct (last_effect k _); reflexivity.
   Qed.
 
-  Theorem valid_settings_survive pf fs text pre l post k v :
+  Theorem valid_settings_survive pf nn fs text pre l post k v :
     fs PConfig = Bytes true text ->
     readlines (universal_newlines text) = (pre ++ l :: post)%list ->
     line_effect l = ESet k v ->
     (forall l' v', In l' post -> line_effect l' <> ESet k v') ->
-    exists s, startup pf fs = Started s /\ assoc k (st_cfg s) = Some v /\ cfg_get (st_cfg s) k = Some v.
+    exists s, startup pf nn fs = Started s /\ assoc k (st_cfg s) = Some v /\ cfg_get (st_cfg s) k = Some v.
   Proof.
-    intros F Ls E Later. destruct (startup_starts pf fs) as (s & S). exists s. split; [exact S|].
+    intros F Ls E Later. destruct (startup_starts pf nn fs) as (s & S). exists s. split; [exact S|].
     assert (A : assoc k (st_cfg s) = Some v).
-    { rewrite (startup_cfg_lookup pf fs s text k F S), Ls. exact (last_effect_app k v l pre post E Later). }
+    { rewrite (startup_cfg_lookup pf nn fs s text k F S), Ls. exact (last_effect_app k v l pre post E Later). }
     split; [exact A|]. unfold cfg_get. rewrite A. reflexivity.
   Qed.
 
@@ -322,13 +322,13 @@ Section WithFacts.
     unfold line_effect. rewrite (split1_app ch_eq k0 v0 Hk), Hp, Hn, Hb. reflexivity.
   Qed.
 
-  Theorem defaults_for_unreadable pf fs :
+  Theorem defaults_for_unreadable pf nn fs :
     config_unusable (fs PConfig) ->
-    exists s, startup pf fs = Started s /\ st_cfg s = [] /\
+    exists s, startup pf nn fs = Started s /\ st_cfg s = [] /\
               forall name, cfg_get (st_cfg s) name = option_map default_of (prop_of name).
   Proof.
-    intros U. destruct (startup_starts pf fs) as (s & S). exists s. split; [exact S|].
-    destruct (startup_inv pf fs s S) as (c1 & w1 & w3 & R1 & R2 & _).
+    intros U. destruct (startup_starts pf nn fs) as (s & S). exists s. split; [exact S|].
+    destruct (startup_inv pf nn fs s S) as (c1 & w1 & w3 & R1 & R2 & _).
     destruct (read_config_ok (fs PConfig) []) as (a1 & b1 & Q1 & M1). rewrite R1 in Q1. injection Q1 as <- <-.
     destruct (read_config_ok (fs PConfig) c1) as (a2 & b2 & Q2 & M2). rewrite R2 in Q2. injection Q2 as <- <-.
     assert (E : st_cfg s = []).
@@ -344,14 +344,14 @@ Section WithFacts.
     rewrite F in U. cbn in U. rewrite P in U. contradiction.
   Qed.
 
-  Theorem startup_table pf fs s : startup pf fs = Started s ->
+  Theorem startup_table pf nn fs s : startup pf nn fs = Started s ->
     rates_positive (st_table s) /\ st_table s <> [] /\
     ((st_from_file s = false /\ st_table s = currency_data) \/
      (st_from_file s = true /\ exists c text,
          fs (path_of c "currency-path") = Bytes true text
          /\ parse_currency_data pf (universal_newlines text) = PTable (st_table s))).
   Proof.
-    intros S. destruct (startup_inv pf fs s S) as (c1 & w1 & w3 & _ & _ & L & _).
+    intros S. destruct (startup_inv pf nn fs s S) as (c1 & w1 & w3 & _ & _ & L & _).
     destruct (load_currency_positive pf c1 fs _ _ _ L) as [Hp Hn].
     split; [exact Hp|]. split; [exact Hn|].
     destruct (load_currency_cases pf c1 fs) as [(w' & L')|(text & x & t & F & P & L')];
@@ -362,25 +362,25 @@ Section WithFacts.
 
   (* the registry step never raises (no AssertionError, no ZeroDivisionError), and when a base
      currency exists every cash unit is rate(base)/rate(row) *)
-  Theorem startup_registry pf fs s : startup pf fs = Started s ->
+  Theorem startup_registry pf nn fs s : startup pf nn fs = Started s ->
     match st_base s with
     | None => st_reg s = None
     | Some b => exists st bb, st_reg s = Some st /\ In bb (st_table s) /\ c_sym bb = b
                   /\ cash_ok (c_rate bb) (st_table s) st
     end.
   Proof.
-    intros S. destruct (startup_inv pf fs s S) as (c1 & w1 & w3 & _ & _ & L & G).
+    intros S. destruct (startup_inv pf nn fs s S) as (c1 & w1 & w3 & _ & _ & L & G).
     pose proof S as S'. unfold startup in S'.
     destruct (read_config (fs PConfig) []) as [[c1' w1']|] eqn:R1; [|discriminate].
     destruct (load_currency_data pf c1' fs) as [[[t b] w2]|]; [|discriminate].
-    destruct (registry_for t (cfg_str c1' "base-currency")) as [r|] eqn:G'; [|discriminate].
+    destruct (registry_for nn t (cfg_str c1' "base-currency")) as [r|] eqn:G'; [|discriminate].
     destruct (read_config (fs PConfig) c1') as [[c2 w3']|]; [|discriminate].
     injection S' as <-. cbn [st_base st_reg st_table] in *.
     unfold registry_for in G'. destruct (select_base (cfg_str c1' "base-currency") t) as [bs|] eqn:Sb.
-    - destruct (register_currencies pre_names pre_syms t bs) as [st|] eqn:Rg; [|discriminate].
+    - destruct (register_currencies nn pre_names pre_syms t bs) as [st|] eqn:Rg; [|discriminate].
       cbn [pbind] in G'. injection G' as <-.
       destruct (load_currency_positive pf c1 fs _ _ _ L) as [Hp _].
-      destruct (registered_cash_ok _ _ _ _ _ Hp Rg) as (bb & Ib & Eb & Ok).
+      destruct (registered_cash_ok _ _ _ _ _ _ Hp Rg) as (bb & Ib & Eb & Ok).
       exists st, bb. apply String.eqb_eq in Eb. auto.
     - injection G' as <-. reflexivity.
   Qed.
@@ -407,10 +407,10 @@ Section WithFacts.
     - rewrite P. cbn [option_map]. rewrite D. exact R0.
   Qed.
 
-  Theorem startup_precision_formattable pf fs s :
-    startup pf fs = Started s -> format_float (st_cfg s) = POk tt.
+  Theorem startup_precision_formattable pf nn fs s :
+    startup pf nn fs = Started s -> format_float (st_cfg s) = POk tt.
   Proof.
-    intros S. destruct (startup_inv pf fs s S) as (c1 & w1 & w3 & R1 & R2 & _).
+    intros S. destruct (startup_inv pf nn fs s S) as (c1 & w1 & w3 & R1 & R2 & _).
     assert (F1 : cfg_from_lines c1) by (eapply read_config_from_lines; [constructor|exact R1]).
     assert (F2 : cfg_from_lines (st_cfg s)) by (eapply read_config_from_lines; [exact F1|exact R2]).
     unfold format_float. pose proof (cfg_precision_in_range _ F2) as [_ H].
